@@ -504,6 +504,13 @@ func (s *Service) prepareProxyRequest(ctx context.Context, r *http.Request, targ
 	if err != nil {
 		return nil, err
 	}
+	// The body handed over here was buffered by the retry handler, so its length is known even
+	// though net/http cannot see it through the wrapper. Declaring it keeps the request framed by
+	// Content-Length; a body of unknown length is sent chunked - or, for CONNECT, not framed at
+	// all, which leaves its bytes on the pooled connection in front of the next client's request.
+	if r.ContentLength > 0 {
+		proxyReq.ContentLength = r.ContentLength
+	}
 
 	// Copy headers
 	headerStart := time.Now()
